@@ -12,7 +12,7 @@ F_TF = 'atsim/potentials/config/_tabulation_factories.py'
 
 # documented targets (docs/reference/potable_input.rst, [Tabulation] target) -> (factory class, tabulation class, EAM builder or None)
 EXPECTED = {
-    'LAMMPS': ('PairTabulationFactory', 'LAMMPS_PairTabulation', None),
+    'LAMMPS': ('LAMMPS_PairTabulationFactory', 'LAMMPS_PairTabulation', None),
     'DLPOLY': ('DLPOLY_PairTabulationFactory', 'DLPoly_PairTabulation', None),
     'DL_POLY': ('DLPOLY_PairTabulationFactory', 'DLPoly_PairTabulation', None),
     'GULP': ('PairTabulationFactory', 'GULP_PairTabulation', None),
